@@ -28,6 +28,11 @@ CHECKS = {
          "Unique-id payloads with hostile bodies are sent from 16 kinds of source through 19 plumbing steps to 9 sinks; every (source, step, sink) triple and every step pair is enumerated, deeper routes are sampled. The output must equal the generator's expected output (strings escaped exactly once, trusted HTML verbatim exactly once), judged entity-agnostically, and must contain no raw special character outside trusted payloads. Held on the routes generated; routes outside the grammar are not covered.",
          "Trusted: html/template's escaper as the canonical escaping; generator bookkeeping of the expected segment list; safe alphabet of literal text.",
          "DESIGN.md §5 C01"),
+ "C05": ("fault_enumeration",
+         "runtime fault injection through instrumented helpers: a sentinel-returning helper / counted failing operations placed at every enumerated position of host templates; monitor on (output, error) at the API boundary gated by the helper's invocation counter",
+         "Every (statement position x expression position) pair is instantiated for 7 fault kinds and rendered by the real engine; when the instrumented helper's counter shows the fault was reached, Render must return an empty string and an error (errors.Is the sentinel for helper errors). Nestings to depth 3 are sampled; the tolerated unknown-identifier cases are checked to still succeed.",
+         "Trusted: the enumerated position list is what 'every position' means here (54 statement positions x 43 expression positions); helper counters are exact because rendering is single-threaded per case.",
+         "DESIGN.md §5 C05"),
 }
 NOT_YET = "check not built yet in this round (see DESIGN.md §5 for the planned monitor)"
 
